@@ -12,6 +12,7 @@ mod basic;
 mod entry;
 mod iters;
 mod misc;
+pub mod nankeys;
 pub mod slices;
 pub mod wide;
 
